@@ -805,7 +805,12 @@ func init() {
 			rng := rand.New(rand.NewSource(in.Seed))
 			alphabet := []string{"%", "%", "%", "[", "]", "*", ".", "0", "1", "2", "9", "+", "-", "#", " ", "v", "T", "t", "b", "c", "d", "o", "O", "q", "x", "X", "U",
 				"e", "E", "f", "F", "g", "G", "s", "z", "p", "w", "\xff", "é", "\x00", "a", "[1]", "[2]", "[0]", "[-1]", "[99999999999999999999]", "1000000", "999999", "1000001", "99999999999999999999", "%!"}
+			began := time.Now()
 			for i := 0; i < in.N; i++ {
+				if i%512 == 0 && time.Since(began) > 70*time.Second {
+					stats["stopped_early"] = i // a prefix of the seeded sequence: the verdict never depends on the machine's load
+					break
+				}
 				var sb strings.Builder
 				for k, n := 0, 1+rng.Intn(14); k < n; k++ {
 					sb.WriteString(alphabet[rng.Intn(len(alphabet))])
